@@ -160,6 +160,37 @@ theorem C16_wasm_rejected (p : Predictor) (cl : List Nat) (w : WasmWorker) (msg 
 theorem C16_wasm_empty (p : Predictor) (cl : List Nat) (w : WasmWorker) : wasmReceived p cl w [] = .ok (w, [], 0) :=
   ExL.wasm_empty p cl w
 
+/-- the specification of a session: every message is answered by a NEW worker (`{}`: two default sentence objects), the
+worker that comes out is thrown away; the run stops after the first answer that is not `ok`, as `wasmSession` does -/
+def wasmSessionFresh (p : Predictor) : List (List Char) → List (List Nat) → List (Res (List WasmToken × Nat))
+  | [], _ => []
+  | m :: ms, cl =>
+    match wasmReceived p (cl.headD []) {} m with
+    | .ok (_, out) => .ok out :: wasmSessionFresh p ms cl.tail
+    | .err e => [.err e]
+    | .panic q => [.panic q]
+    | .ub q => [.ub q]
+
+/-- a session on ONE worker, in whatever state it starts, answers every message as a new worker would, up to and including
+the first message that makes the worker panic (where both runs end): reusing the sentence objects over a whole session is
+invisible -/
+theorem C16_wasm_session_fresh (p : Predictor) (w : WasmWorker) (msgs : List (List Char)) (cls : List (List Nat)) :
+    wasmSession p w msgs cls = wasmSessionFresh p msgs cls := by
+  induction msgs generalizing w cls with
+  | nil => rfl
+  | cons m ms ih =>
+    have h := C16_wasm_reuse_invisible p (cls.headD []) w m
+    unfold wasmSession wasmSessionFresh
+    cases h1 : wasmReceived p (cls.headD []) w m <;> cases h2 : wasmReceived p (cls.headD []) {} m <;>
+      rw [h1, h2] at h <;> simp only [Res.map] at h <;> first | (cases h; done) | skip
+    · rename_i a b
+      obtain ⟨w1, o1⟩ := a
+      obtain ⟨w2, o2⟩ := b
+      simp only [Res.ok.injEq] at h
+      simp only []
+      rw [ih w1 cls.tail, h]
+    all_goals simp only [Res.err.injEq, Res.panic.injEq, Res.ub.injEq] at h; rw [h]
+
 /-- `C16_exModel` with a tag model for the (normalised) token "ａ" -/
 def C16_exTagModel : WModel :=
   { C16_exModel with
